@@ -1,6 +1,7 @@
 mod ast;
 mod child;
 mod codec;
+mod draw;
 mod drive;
 mod http;
 mod tlc;
@@ -19,6 +20,7 @@ fn main() {
     match args[2].as_str() {
       "c05" => child::child_main(&args[3..], drive::c05::child_case),
       "c12" => child::child_main(&args[3..], drive::c12::child_case),
+      "c19" => child::child_main(&args[3..], drive::c19::child_case),
       "c20" => child::child_main(&args[3..], drive::c20::child_case),
       _ => std::process::exit(2),
     }
@@ -64,6 +66,7 @@ fn main() {
     "C16" => drive::c16::check(Ctx::new(id, &tier, "model_checking"), replay),
     "C17" => drive::c17::check(Ctx::new(id, &tier, "model_checking"), replay),
     "C18" => drive::c18::check(Ctx::new(id, &tier, "model_checking"), replay),
+    "C19" => drive::c19::check(Ctx::new(id, &tier, "exploration"), replay),
     "C20" => drive::c20::check(Ctx::new(id, &tier, "model_checking"), replay),
     _ => tool_error(&format!("no check for {}", id)),
   }
@@ -85,6 +88,22 @@ fn probe(args: &[String]) {
           }
         }
         Err(e) => println!("PARSE-ERR {}", e),
+      }
+    }
+    "draw" => {
+      let t: serde_json::Value = serde_json::from_str(&args[1]).expect("json");
+      let text = draw::draw_table(&t);
+      println!("{}", text);
+      match dmntk_recognizer::build(&text) {
+        Ok(t) => println!("{:?}", t),
+        Err(e) => println!("RECOGNIZE-ERR {}", e),
+      }
+    }
+    "table" => {
+      let text = std::fs::read_to_string(&args[1]).expect("file");
+      match dmntk_recognizer::build(&text) {
+        Ok(t) => println!("{:#?}", t),
+        Err(e) => println!("RECOGNIZE-ERR {}", e),
       }
     }
     "model" => {
